@@ -16,8 +16,9 @@ def gen(rng, tier):
             G = dict(G); G["edges"] = e
         n = G["n"]; big = rng.random() < 0.4
         D = common.random_divisor(rng, G, big=big)
-        kind = rng.choice(["sparse", "dense", "huge", "mid", "incremental"])
+        kind = rng.choice(["sparse", "dense", "huge", "mid", "incremental", "zero"])
         if kind == "sparse": s = [rng.randint(-5, 5) if rng.random() < 0.3 else 0 for _ in range(n)]
+        elif kind == "zero": s = [0] * n          # nothing fires: the result must still be a new object equal to D
         elif kind == "huge": s = [rng.choice([-1, 1]) * 2 ** rng.choice([31, 32, 62, 63, 64, 70]) + rng.randint(-3, 3) if rng.random() < 0.6 else rng.randint(-3, 3) for _ in range(n)]
         elif kind == "mid": s = [rng.randint(-2 ** 30, 2 ** 30) for _ in range(n)]
         else: s = [rng.randint(-9, 9) for _ in range(n)]
